@@ -4,5 +4,6 @@ CONSTANTS
   DevAvg = FALSE
   DevArr = FALSE
   DevStale = TRUE
+  DevEmpty = FALSE
 INVARIANTS LengthInv StepOKModKnown
 CHECK_DEADLOCK FALSE
